@@ -62,6 +62,10 @@ CHECKS = {
    "bounded-exhaustive enumeration of line-token sequences, short structural byte strings and single/double mutations of valid seed files fed to every reader; panic/contract/call-bound/must-error oracle",
    "Per format (FASTA, FASTQ, BED3/4/5/6/12, GFF): every sequence of <=3 (thorough 4) line tokens from an alphabet holding every line shape the parsers distinguish and every invalid shape the statement lists, with LF, CRLF and without final newline; every byte string of length <=4 (5) over 15 structural bytes; every single (thorough: pairs of) mutation of a valid file incl. truncation at every byte offset.",
    "Must-error is demanded only for the invalid kinds the statement names, with inline-sequence context tracked; hangs are detected by a progress watchdog and confirmed in a child process."),
+ "C04": (E3, "exploration", "DESIGN.md §3 C04",
+   "exhaustive enumeration of layout transformations (re-wrap widths, blank-line sites, trailing blanks per line, CRLF, missing final newline, and their combinations) of generated valid files, differential comparison of the parsed record lists",
+   "FASTA: every list of <=2 records from 6 record shapes at widths 1,2,3,60 plus 4097/12289-letter records at widths up to 20000 (lines far beyond the 4096-byte buffer), every blank-line site (thorough: pairs), every per-line and all-line trailing blank variant, CRLF and final-newline presence, combined; FASTQ likewise with blank lines at record boundaries; BED (all 5 types) and GFF (features, regions, inline sequences in last position or not): CRLF x final newline.",
+   "Only the layout changes the statement names are generated; comparison is against the canonical file written by the library's own writer."),
 }
 PENDING = {}  # id -> reason, for properties not (yet) claimed
 
